@@ -353,9 +353,23 @@ impl FsInner {
     }
 }
 
+/// A process-wide gate in front of every filesystem call (stream `c07_pipe`: the harness closes it, lets the worker
+/// thread run into it — `ARRIVED` — queues more events behind the batch the worker holds, and opens it again).
+pub static GATE_CLOSED: std::sync::atomic::AtomicBool = std::sync::atomic::AtomicBool::new(false);
+pub static GATE_ARRIVED: std::sync::atomic::AtomicBool = std::sync::atomic::AtomicBool::new(false);
+
+fn gate() {
+    use std::sync::atomic::Ordering::SeqCst;
+    while GATE_CLOSED.load(SeqCst) {
+        GATE_ARRIVED.store(true, SeqCst);
+        std::thread::yield_now();
+    }
+}
+
 impl Fs {
     /// Consume one operation index; on `ok` run `act`, on a failure return `Err`, on a crash unwind.
     fn simple<T>(&self, act: impl FnOnce(&mut FsInner) -> io::Result<T>) -> io::Result<T> {
+        gate();
         let mut g = self.0.lock().unwrap();
         match g.next_fault() {
             None => act(&mut g),
@@ -446,6 +460,7 @@ impl io::Write for Handle {
             self.fail_next = false;
             return Err(io_err("injected after short write"));
         }
+        gate();
         let mut g = self.fs.0.lock().unwrap();
         let fault = g.next_fault();
         let name = self.name.clone();
